@@ -1,10 +1,10 @@
 SPECIFICATION Spec
 CONSTANTS
   MinFields = 1
-  MaxFields = 3
-  MethodLists = "q"
-  Exported = {TRUE}
+  MaxFields = 2
+  MethodLists = "q1"
+  Exported = {FALSE}
   Tagged = {FALSE}
-  Preludes = {"none"}
+  Preludes = {"const", "type"}
   Shadows = {FALSE}
 INVARIANTS TypeOK TwinSame GroupingIrrelevant OutputShape Export
